@@ -28,12 +28,13 @@ from .core import Check, MachineryError, seed
 from .tlc import require_actions, run_tlc
 
 SPEC_INVARIANTS = ["TypeOK", "CheckAndEmit"]
-NAMED_INVARIANTS = ["TypeOK", "InvSumsToJ", "InvEigenEq", "InvConserved", "InvPermEquiv", "InvSeqEquiv", "InvParEquiv",
-                    "InvShortcutAdmissible", "InvShortcutSound"]
+NAMED_INVARIANTS = ["TypeOK", "InvSumsToJ", "InvEigenEq", "InvConserved", "InvPermutationEquivariance", "InvSeqEquiv", "InvParEquiv",
+                    "InvSequentialShortcutAdmissible", "InvSequentialShortcutSound"]
 RATES = [1, 2, 3, 5]
 TIMES = [0.0, 0.25, 0.5, 1.0, 2.0, 5.0]
 GLOBAL = [1.0, 2.0, 3.0, 4.0]
 TOL = 1e-9
+TLC_TIMEOUT = 4 * 3600        # a starved machine makes a run slow, not a machinery failure
 JCODES = {
     1: [(1,), (2,)],
     2: [(1, 0), (0, 1), (1, 1), (1, 2)],
@@ -57,6 +58,7 @@ def cfg(job: dict, emit: bool = True, named: bool = False) -> str:
              f"  MaxEntries = {job['e1']}", f"  MaxEntries2 = {job['e2']}", f"  OrdCode = {code(job['ord'])}",
              f"  Excl = {s(job['excl'])}", "  JCodes = {" + ", ".join(code(v) for v in job["jv"]) + "}",
              "  Kinds = {" + ", ".join(f'"{k}"' for k in job["kinds"]) + "}", f"  EmitOn = {'TRUE' if emit else 'FALSE'}",
+             f"  FirstLo = {job.get('first', (1, job['n'] ** 2))[0]}", f"  FirstHi = {job.get('first', (1, job['n'] ** 2))[1]}",
              "CHECK_DEADLOCK FALSE"]
     lines += [f"INVARIANT {i}" for i in (NAMED_INVARIANTS if named else SPEC_INVARIANTS)]
     return "\n".join(lines) + "\n"
@@ -64,7 +66,8 @@ def cfg(job: dict, emit: bool = True, named: bool = False) -> str:
 
 def job_name(job: dict) -> str:
     return (f"Compartments[N={job['n']},E={job['e1']}+{job['e2']},ord={''.join(map(str, job['ord']))},"
-            f"excl={sorted(job['excl'])},j={len(job['jv'])},kinds={'/'.join(job['kinds'])}]")
+            f"excl={sorted(job['excl'])},j={len(job['jv'])},kinds={'/'.join(job['kinds'])}"
+            + (f",first={job['first'][0]}..{job['first'][1]}" if "first" in job else "") + "]")
 
 
 def jobs_for(tier: str) -> list[dict]:
@@ -72,12 +75,17 @@ def jobs_for(tier: str) -> list[dict]:
     rng = random.Random(seed())
     jobs = []
 
-    def add(n, e1, e2, orders, excls, jvs=None, kinds=("general", "seq", "par"), workers=1, cost=1):
+    def add(n, e1, e2, orders, excls, jvs=None, kinds=("general", "seq", "par"), workers=1, cost=1, firsts=None):
         for o in orders:
             for ex in excls:
                 exs = sorted({o[i] for i in ex if i < n})
                 ks = [k for k in kinds if k == "general" or (not exs and e2 == 0)]   # seq / par have neither initial concentration nor K items
-                jobs.append(dict(n=n, e1=e1, e2=e2, ord=list(o), excl=exs, jv=list(jvs or JCODES[n]), kinds=ks, workers=workers, cost=cost))
+                for first in firsts or [None]:          # big enumerations are split by the position of the first K-matrix entry
+                    job = dict(n=n, e1=e1, e2=e2, ord=list(o), excl=exs, jv=list(jvs or JCODES[n]), kinds=ks, workers=workers, cost=cost)
+                    if first:
+                        job["first"] = first
+                        job["kinds"] = ["general"]
+                    jobs.append(job)
 
     perms = lambda n: list(itertools.permutations(range(1, n + 1)))  # noqa: E731
     # exclude_from_normalize variants, as positions in the declaration order: none / the second declared (the only one if N = 1)
@@ -90,8 +98,10 @@ def jobs_for(tier: str) -> list[dict]:
     else:
         p4 = perms(4)
         some = [p4[0], p4[-1]] + rng.sample(p4[1:-1], 2)
-        add(4, 4, 0, [p4[0]], [()], jvs=[(0, 1, 0, 0), (1, 2, 1, 0)], kinds=("general",), workers=4, cost=1300)
-        add(4, 2, 1, [p4[9]], [()], jvs=[(1, 0, 0, 0), (1, 1, 1, 1), (1, 2, 1, 0)], workers=4, cost=650)   # two combined K-matrices
+        add(4, 4, 0, [p4[0]], [()], jvs=[(0, 1, 0, 0), (1, 2, 1, 0)], workers=2, cost=300,
+            firsts=[(1, 1), (2, 2), (3, 3), (4, 5), (6, 16)])
+        add(4, 2, 1, [p4[9]], [()], jvs=[(1, 0, 0, 0), (1, 1, 1, 1), (1, 2, 1, 0)], workers=2, cost=250,
+            firsts=[(1, 2), (3, 5), (6, 16)])                                                               # two combined K-matrices
         add(4, 3, 0, some, [()], workers=2, cost=250)
         add(4, 3, 0, [p4[14]], [(1,)], workers=2, cost=250)
         add(3, 4, 0, perms(3), [()], workers=2, cost=155)
@@ -132,8 +142,8 @@ class CpuBudget:
 
 def run_job(job: dict) -> dict:
     if job.get("named"):
-        return run_tlc("Compartments", cfg(job, emit=False, named=True), workers=job["workers"], timeout=3000, heap="3g")
-    return run_tlc("Compartments", cfg(job), workers=job["workers"], timeout=3000, heap="3g")
+        return run_tlc("Compartments", cfg(job, emit=False, named=True), workers=job["workers"], timeout=TLC_TIMEOUT, heap="3g")
+    return run_tlc("Compartments", cfg(job), workers=job["workers"], timeout=TLC_TIMEOUT, heap="3g")
 
 
 def case_lines(out: str) -> list[str]:
@@ -595,7 +605,11 @@ def run(tier: str, replay=None) -> int:
     all_fails: list = []
     all_samples: list = []
     budget = CpuBudget(max(2, ncpu - 4))
-    with ProcessPoolExecutor(max_workers=nproc, initializer=_init_worker) as pool, ThreadPoolExecutor(max_workers=len(jobs)) as tp:
+    # replay workers are *spawned*: a forked worker would inherit the pipe ends of TLC subprocesses that other threads are just
+    # starting (Popen then waits for ever for the exec-status pipe to close and TLC blocks on a full stdout pipe)
+    import multiprocessing
+    with ProcessPoolExecutor(max_workers=nproc, initializer=_init_worker, mp_context=multiprocessing.get_context("spawn")) as pool, \
+            ThreadPoolExecutor(max_workers=len(jobs)) as tp:
         futs = {tp.submit(budget.run, job): n for n, job in enumerate(jobs)}
         pending = []
         named: list = []
